@@ -143,10 +143,20 @@ fn small_component(nmax: usize) -> BoxedStrategy<AbsGraph> {
     .boxed()
 }
 
-/// Union of 2..=4 components whose sizes sum to <= nmax.
+/// Union of 2..=4 components whose sizes sum to <= nmax: balanced (each up to nmax/2) or
+/// unbalanced (one component of up to nmax-1 arguments next to small ones).
 fn components(nmax: usize) -> impl Strategy<Value = AbsGraph> {
     let per = (nmax / 2).max(1);
-    vec(small_component(per), 2..=4).prop_map(move |parts| {
+    let balanced = vec(small_component(per), 2..=4);
+    let unbalanced = (small_component(nmax.saturating_sub(1).max(1)), vec(small_component((nmax / 3).max(1)), 1..=3), any::<bool>()).prop_map(|(big, mut small, big_last)| {
+        if big_last {
+            small.push(big);
+        } else {
+            small.insert(0, big);
+        }
+        small
+    });
+    prop_oneof![1 => balanced.boxed(), 1 => unbalanced.boxed()].prop_map(move |parts| {
         let mut g = AbsGraph { n: 0, att: vec![] };
         for p in parts {
             if g.n + p.n <= nmax {
